@@ -1,7 +1,12 @@
-(* C16 — the gcem floor / ceil / trunc fall-back kernels compute exactly Flocq's
-   Bnearbyint mode_DN / mode_UP / mode_ZR, for every value of every format with
-   2 <= prec <= 64 (the integer conversion is to a 64-bit signed integer), and in
-   particular never reach the undefined conversion. *)
+(* C16 — the gcem floor / ceil / trunc fall-back kernels (Model.g_floor, g_ceil, g_trunc)
+   compute exactly Flocq's Bnearbyint mode_DN / mode_UP / mode_ZR (Spec.spec_floor,
+   spec_ceil, spec_trunc) on EVERY value (zeros with their sign, infinities, NaN, all
+   finite values) of every format with 2 <= prec <= 64; in particular the partial
+   conversion to a 64-bit signed integer is never undefined.  The upper bound on prec is
+   tight (the conversion is to 64 bits and the guard is |x| >= 2^(prec-1)); the lower
+   bound is not essential (the file also compiles with 1 <= prec).
+   Instances: binary32, binary64, x87 extended.
+   Only the standard real-number axioms are used (see the Print Assumptions at the end). *)
 From Coq Require Import ZArith Reals Bool Lia Lra Psatz.
 From Flocq Require Import Core BinarySingleNaN.
 From Tetl Require Import Lib.Base C16.Model C16.Spec.
@@ -15,7 +20,6 @@ Hypothesis Hprec : 2 <= prec <= 64.
 Notation fl := (binary_float prec emax).
 Notation femin := (SpecFloat.emin prec emax).
 Notation ffexp := (SpecFloat.fexp prec emax).
-Notation rnd := (round radix2 ffexp ZnearestE).
 
 Local Notation of_Z := (of_Z prec emax Hp Hpe).
 Local Notation f_zero := (f_zero prec emax Hp Hpe).
@@ -30,8 +34,6 @@ Proof. exact Hpe. Qed.
 
 Lemma emin_le_0 : femin <= 0.
 Proof. unfold SpecFloat.emin. pose proof prec_lt_emax. lia. Qed.
-
-Instance valid_fexp : Valid_exp ffexp := fexp_correct prec emax Hp.
 
 (** * integers of small magnitude are in the format *)
 Lemma format_IZR : forall n : Z, Z.abs n < 2 ^ prec -> generic_format radix2 ffexp (IZR n).
@@ -129,6 +131,65 @@ Proof.
   split; assumption.
 Qed.
 
+(** * exact subtraction / addition of small integers *)
+Lemma fsub_int : forall (a b : fl) (za zb : Z),
+  is_finite a = true -> is_finite b = true ->
+  B2R a = IZR za -> B2R b = IZR zb -> Z.abs (za - zb) < 2 ^ prec ->
+  B2R (fsub prec emax Hp Hpe a b) = IZR (za - zb) /\
+  is_finite (fsub prec emax Hp Hpe a b) = true /\
+  Bsign (fsub prec emax Hp Hpe a b) =
+    match za - zb ?= 0 with Eq => Bsign a && negb (Bsign b) | Lt => true | Gt => false end.
+Proof.
+  intros a b za zb Fa Fb Va Vb Hab.
+  unfold fsub.
+  generalize (Bminus_correct prec emax Hp Hpe mode_NE a b Fa Fb).
+  rewrite Va, Vb, <- minus_IZR.
+  rewrite round_generic by (try apply valid_rnd_round_mode; now apply format_IZR).
+  rewrite Rlt_bool_true by now apply IZR_lt_bpow_emax.
+  rewrite Rcompare_IZR.
+  intros (H1 & H2 & H3). now repeat split.
+Qed.
+
+Lemma fadd_int : forall (a b : fl) (za zb : Z),
+  is_finite a = true -> is_finite b = true ->
+  B2R a = IZR za -> B2R b = IZR zb -> Z.abs (za + zb) < 2 ^ prec ->
+  B2R (fadd prec emax Hp Hpe a b) = IZR (za + zb) /\
+  is_finite (fadd prec emax Hp Hpe a b) = true /\
+  Bsign (fadd prec emax Hp Hpe a b) =
+    match za + zb ?= 0 with Eq => Bsign a && Bsign b | Lt => true | Gt => false end.
+Proof.
+  intros a b za zb Fa Fb Va Vb Hab.
+  unfold fadd.
+  generalize (Bplus_correct prec emax Hp Hpe mode_NE a b Fa Fb).
+  rewrite Va, Vb, <- plus_IZR.
+  rewrite round_generic by (try apply valid_rnd_round_mode; now apply format_IZR).
+  rewrite Rlt_bool_true by now apply IZR_lt_bpow_emax.
+  rewrite Rcompare_IZR.
+  intros (H1 & H2 & H3). now repeat split.
+Qed.
+
+(** * floor and ceiling from each other *)
+Lemma floor_from_ceil : forall t : R,
+  Zfloor t = Zceil t - (if Rlt_bool t (IZR (Zceil t)) then 1 else 0).
+Proof.
+  intros t. destruct (Rlt_bool_spec t (IZR (Zceil t))) as [Hlt|Hge].
+  - rewrite (Zceil_floor_neq t); [lia|].
+    intros Heq. rewrite <- Heq in Hlt at 2. rewrite Zceil_IZR in Hlt. lra.
+  - pose proof (Zceil_ub t) as Hub.
+    assert (Heq : t = IZR (Zceil t)) by lra.
+    rewrite Heq at 1. rewrite Zfloor_IZR. lia.
+Qed.
+
+Lemma ceil_from_floor : forall t : R,
+  Zceil t = Zfloor t + (if Rlt_bool (IZR (Zfloor t)) t then 1 else 0).
+Proof.
+  intros t. destruct (Rlt_bool_spec (IZR (Zfloor t)) t) as [Hlt|Hge].
+  - apply Zceil_floor_neq. lra.
+  - pose proof (Zfloor_lb t) as Hlb.
+    assert (Heq : t = IZR (Zfloor t)) by lra.
+    rewrite Heq at 1. rewrite Zceil_IZR. lia.
+Qed.
+
 (** * the guards of the ladder on a finite non-zero [x] *)
 Section Finite.
 Variables (s : bool) (m : positive) (e : Z) (H : SpecFloat.bounded prec emax m e = true).
@@ -194,6 +255,311 @@ Proof.
   unfold fge. rewrite Bleb_correct by assumption. now rewrite A1, L1.
 Qed.
 
+Lemma finite_not_nan : forall y : fl, is_finite y = true -> is_nan y = false.
+Proof. now intros [ | | | ]. Qed.
+
+(** a finite float with the right integer value and the sign of [x] is the spec value *)
+Lemma nearbyint_char : forall md (y : fl),
+  is_finite y = true ->
+  B2R y = IZR (round_mode md r) ->
+  Bsign y = s ->
+  y = Bnearbyint md x.
+Proof.
+  intros md y Fy Vy Sy.
+  destruct (Bnearbyint_correct prec emax Hpe md x) as (N1 & N2 & N3).
+  change (is_finite x) with true in N2.
+  apply B2R_Bsign_inj; trivial.
+  - rewrite N1, round_FIX_IZR. exact Vy.
+  - rewrite N3 by now apply finite_not_nan. exact Sy.
+Qed.
+
+(** large magnitude: [x] is an integer, the spec returns [x] *)
+Lemma big_nearbyint : forall md, (bpow radix2 (prec - 1) <= Rabs r)%R -> Bnearbyint md x = x.
+Proof.
+  intros md Hbig. symmetry.
+  apply nearbyint_char; trivial.
+  rewrite <- round_FIX_IZR. symmetry.
+  apply round_generic. apply valid_rnd_round_mode.
+  apply generic_inclusion_ge with (fexp1 := ffexp) (e1 := prec - 1).
+  - intros e' He'. unfold FIX_exp, SpecFloat.fexp. lia.
+  - exact Hbig.
+  - apply generic_format_B2R.
+Qed.
+
+(** small magnitude: the conversion to a 64-bit integer is defined *)
+Lemma small_trunc : (Rabs r < bpow radix2 (prec - 1))%R -> Z.abs (Ztrunc r) < 2 ^ (prec - 1).
+Proof.
+  intros Hsmall.
+  rewrite <- Ztrunc_abs. rewrite Ztrunc_floor by apply Rabs_pos.
+  apply lt_IZR. apply Rle_lt_trans with (1 := Zfloor_lb _).
+  change 2 with (radix_val radix2). rewrite IZR_Zpower by lia. exact Hsmall.
+Qed.
+
+Lemma Btrunc_fin : Btrunc x = Ztrunc r.
+Proof.
+  apply eq_IZR. rewrite Btrunc_correct by exact Hpe. now rewrite round_FIX_IZR.
+Qed.
+
+Lemma pow_prec_half : 2 ^ prec = 2 * 2 ^ (prec - 1).
+Proof. rewrite <- Z.pow_succ_r by lia. f_equal. lia. Qed.
+
+Lemma pow_half_le_63 : 2 ^ (prec - 1) <= 2 ^ 63.
+Proof. apply Z.pow_le_mono_r; lia. Qed.
+
+Lemma small_to_sint : (Rabs r < bpow radix2 (prec - 1))%R -> to_sint prec emax 64 x = Ok (Ztrunc r).
+Proof.
+  intros Hsmall. apply small_trunc in Hsmall.
+  unfold to_sint, x. fold x. cbv zeta. rewrite Btrunc_fin.
+  pose proof pow_half_le_63 as H63.
+  unfold in_s. change (64 - 1) with 63.
+  replace (- 2 ^ 63 <=? Ztrunc r) with true by (symmetry; apply Z.leb_le; lia).
+  replace (Ztrunc r <? 2 ^ 63) with true by (symmetry; apply Z.ltb_lt; lia).
+  reflexivity.
+Qed.
+
+(** * the integer branch *)
+Section Small.
+Hypothesis Hsmall : (Rabs r < bpow radix2 (prec - 1))%R.
+Let z : Z := Ztrunc r.
+
+Lemma z_small : Z.abs z < 2 ^ (prec - 1).
+Proof. now apply small_trunc. Qed.
+
+Lemma w_correct : B2R (of_Z z) = IZR z /\ is_finite (of_Z z) = true /\ Bsign (of_Z z) = (z <? 0).
+Proof. apply of_Z_correct. pose proof z_small. pose proof pow_prec_half. lia. Qed.
+
+Lemma bit_correct : forall b : bool, let n := if b then 1 else 0 in
+  B2R (of_Z n) = IZR n /\ is_finite (of_Z n) = true /\ Bsign (of_Z n) = false.
+Proof.
+  intros b n. pose proof pow_prec_gt_1.
+  destruct (of_Z_correct n) as (B1 & B2 & B3).
+  { unfold n; destruct b; cbn; lia. }
+  repeat split; trivial. rewrite B3. unfold n; now destruct b.
+Qed.
+
+Lemma z_neg : s = true -> z = Zceil r.
+Proof. intros Hs. pose proof fin_sign as Hr. rewrite Hs in Hr. apply Ztrunc_ceil. lra. Qed.
+
+Lemma z_pos : s = false -> z = Zfloor r.
+Proof. intros Hs. pose proof fin_sign as Hr. rewrite Hs in Hr. apply Ztrunc_floor. lra. Qed.
+
+Lemma small_floor : g_floor_int prec emax Hp Hpe x (of_Z z) = Bnearbyint mode_DN x.
+Proof.
+  destruct w_correct as (W1 & W2 & W3).
+  pose proof z_small as Hz. pose proof pow_prec_half as Hhalf. pose proof pow_prec_gt_1 as Hgt1.
+  unfold g_floor_int, g_floor_resid.
+  rewrite fin_flt0.
+  unfold flt at 1. rewrite Bltb_correct by trivial. rewrite W1. fold r.
+  set (b := s && Rlt_bool r (IZR z)).
+  destruct (bit_correct b) as (B1 & B2 & B3). cbv zeta in B1, B2, B3.
+  set (n := if b then 1 else 0) in *.
+  assert (Hn : 0 <= n <= 1) by (unfold n; destruct b; lia).
+  destruct (fsub_int (of_Z z) (of_Z n) z n W2 B2 W1 B1) as (S1 & S2 & S3); [lia|].
+  assert (Hfl : z - n = Zfloor r).
+  { unfold n, b. destruct (Bool.bool_dec s true) as [Es|Es%Bool.not_true_is_false]; rewrite Es; cbn [andb].
+    - rewrite (z_neg Es). symmetry. apply floor_from_ceil.
+    - rewrite (z_pos Es). lia. }
+  apply nearbyint_char; trivial.
+  - cbn [round_mode]. now rewrite <- Hfl.
+  - rewrite S3, Hfl, W3, B3.
+    pose proof (Zfloor_lb r) as Hlb. pose proof (Zfloor_ub r) as Hub.
+    pose proof fin_sign as Hr.
+    destruct (Z.compare_spec (Zfloor r) 0) as [He|Hl|Hg].
+    + rewrite He in Hlb, Hub.
+      destruct (Bool.bool_dec s true) as [Es|Es%Bool.not_true_is_false]; rewrite Es in Hr |- *.
+      * lra.
+      * rewrite (z_pos Es), He. reflexivity.
+    + assert (Hl' : (IZR (Zfloor r) + 1 <= 0)%R).
+      { rewrite <- (plus_IZR _ 1). apply IZR_le. lia. }
+      destruct (Bool.bool_dec s true) as [Es|Es%Bool.not_true_is_false]; rewrite Es in Hr |- *.
+      * reflexivity.
+      * lra.
+    + apply IZR_lt in Hg.
+      destruct (Bool.bool_dec s true) as [Es|Es%Bool.not_true_is_false]; rewrite Es in Hr |- *.
+      * lra.
+      * reflexivity.
+Qed.
+
+Lemma z_neg_le : s = true -> z <= 0.
+Proof.
+  intros Es. rewrite (z_neg Es). pose proof fin_sign as Hr. rewrite Es in Hr.
+  apply Zceil_glb. simpl. lra.
+Qed.
+
+Lemma z_pos_ge : s = false -> 0 <= z.
+Proof.
+  intros Es. rewrite (z_pos Es). pose proof fin_sign as Hr. rewrite Es in Hr.
+  apply Zfloor_lub. simpl. lra.
+Qed.
+
+Lemma small_ceil : g_ceil_int prec emax Hp Hpe x (of_Z z) = Bnearbyint mode_UP x.
+Proof.
+  destruct w_correct as (W1 & W2 & W3).
+  pose proof z_small as Hz. pose proof pow_prec_half as Hhalf. pose proof pow_prec_gt_1 as Hgt1.
+  pose proof fin_sign as Hr.
+  pose proof (Zceil_ub r) as Hub. pose proof (Zceil_lb r) as Hlb.
+  unfold g_ceil_int, g_ceil_resid.
+  rewrite fin_flt0, fin_fgt0.
+  unfold feq. rewrite Beqb_correct by trivial. rewrite W1.
+  unfold fgt at 1. rewrite Bltb_correct by trivial. rewrite W1. fold r.
+  change (B2R f_zero) with 0%R.
+  destruct (Bool.bool_dec s true) as [Es|Es%Bool.not_true_is_false]; rewrite Es in Hr |- *; cbn [andb negb].
+  - (* x < 0 *)
+    pose proof (z_neg Es) as Hzc.
+    destruct (Req_bool_spec (IZR z) 0) as [Hz0|Hz0].
+    + apply eq_IZR in Hz0. rewrite Hz0.
+      apply nearbyint_char; trivial.
+      * cbn [round_mode]. rewrite <- Hzc, Hz0. reflexivity.
+      * now rewrite Es.
+    + destruct (bit_correct false) as (B1 & B2 & B3). cbv zeta iota in B1, B2, B3.
+      destruct (fadd_int (of_Z z) (of_Z 0) z 0 W2 B2 W1 B1) as (S1 & S2 & S3); [lia|].
+      rewrite Z.add_0_r in S1, S3.
+      apply nearbyint_char; trivial.
+      * cbn [round_mode]. now rewrite <- Hzc.
+      * rewrite S3, Es. pose proof (z_neg_le Es) as Hle.
+        destruct (Z.compare_spec z 0) as [He|Hl|Hg]; trivial.
+        -- elim Hz0. now rewrite He.
+        -- lia.
+  - (* 0 < x *)
+    pose proof (z_pos Es) as Hzf.
+    set (b := Rlt_bool (IZR z) r).
+    destruct (bit_correct b) as (B1 & B2 & B3). cbv zeta in B1, B2, B3.
+    set (n := if b then 1 else 0) in *.
+    assert (Hn : 0 <= n <= 1) by (unfold n; destruct b; lia).
+    destruct (fadd_int (of_Z z) (of_Z n) z n W2 B2 W1 B1) as (S1 & S2 & S3); [lia|].
+    assert (Hce : z + n = Zceil r).
+    { unfold n, b. rewrite Hzf. symmetry. apply ceil_from_floor. }
+    apply nearbyint_char; trivial.
+    + cbn [round_mode]. now rewrite <- Hce.
+    + rewrite S3, Hce, Es.
+      destruct (Z.compare_spec (Zceil r) 0) as [He|Hl|Hg]; trivial.
+      * rewrite He in Hub. lra.
+      * apply IZR_lt in Hl. lra.
+Qed.
+
+Lemma small_to_sint_opp : to_sint prec emax 64 (fneg prec emax x) = Ok (- z).
+Proof.
+  pose proof z_small as Hz. pose proof pow_half_le_63 as H63.
+  assert (Hb : Btrunc (Bopp x) = - z).
+  { apply eq_IZR. rewrite Btrunc_correct by exact Hpe.
+    rewrite round_FIX_IZR, B2R_Bopp. fold r. now rewrite Ztrunc_opp. }
+  unfold to_sint, fneg. unfold x at 1. cbn [Bopp]. cbv zeta.
+  change (B754_finite (negb s) m e H) with (Bopp x). rewrite Hb.
+  unfold in_s. change (64 - 1) with 63.
+  replace (- 2 ^ 63 <=? - z) with true by (symmetry; apply Z.leb_le; lia).
+  replace (- z <? 2 ^ 63) with true by (symmetry; apply Z.ltb_lt; lia).
+  reflexivity.
+Qed.
+
+Lemma small_trunc_int : g_trunc_int prec emax Hp Hpe x = Ok (Bnearbyint mode_ZR x).
+Proof.
+  pose proof z_small as Hz. pose proof pow_prec_half as Hhalf.
+  unfold g_trunc_int. rewrite fin_flt0.
+  destruct (Bool.bool_dec s true) as [Es|Es%Bool.not_true_is_false]; rewrite Es.
+  - rewrite small_to_sint_opp. cbn [rbind]. f_equal.
+    destruct (of_Z_correct (- z)) as (W1 & W2 & W3); [lia|].
+    unfold fneg.
+    apply nearbyint_char.
+    + now rewrite is_finite_Bopp.
+    + rewrite B2R_Bopp, W1, opp_IZR. cbn [round_mode]. fold z. ring.
+    + rewrite Bsign_Bopp by now apply finite_not_nan.
+      rewrite W3, Es. pose proof (z_neg_le Es).
+      replace (- z <? 0) with false by (symmetry; apply Z.ltb_ge; lia). reflexivity.
+  - rewrite small_to_sint by exact Hsmall. cbn [rbind]. f_equal. fold z.
+    destruct w_correct as (W1 & W2 & W3).
+    apply nearbyint_char.
+    + exact W2.
+    + exact W1.
+    + fold z. rewrite W3, Es. pose proof (z_pos_ge Es). apply Z.ltb_ge. lia.
+Qed.
+
+End Small.
+
 End Finite.
 
+(** * the three kernels *)
+Theorem g_floor_exact : forall x : fl,
+  g_floor prec emax Hp Hpe x = Ok (spec_floor prec emax Hpe x).
+Proof.
+  intros [sx|sx| |s m e H]; unfold spec_floor.
+  - destruct sx; reflexivity.
+  - destruct sx; reflexivity.
+  - reflexivity.
+  - unfold g_floor.
+    rewrite fin_is_nan, fin_is_finite, fin_eq0, fin_limit. cbn [negb].
+    destruct (Rle_bool_spec (bpow radix2 (prec - 1)) (Rabs (B2R (B754_finite s m e H)))) as [Hbig|Hsmall].
+    + now rewrite big_nearbyint.
+    + rewrite small_to_sint by exact Hsmall. cbn [rbind]. f_equal.
+      now apply small_floor.
+Qed.
+
+Theorem g_ceil_exact : forall x : fl,
+  g_ceil prec emax Hp Hpe x = Ok (spec_ceil prec emax Hpe x).
+Proof.
+  intros [sx|sx| |s m e H]; unfold spec_ceil.
+  - destruct sx; reflexivity.
+  - destruct sx; reflexivity.
+  - reflexivity.
+  - unfold g_ceil.
+    rewrite fin_is_nan, fin_is_finite, fin_eq0, fin_limit. cbn [negb].
+    destruct (Rle_bool_spec (bpow radix2 (prec - 1)) (Rabs (B2R (B754_finite s m e H)))) as [Hbig|Hsmall].
+    + now rewrite big_nearbyint.
+    + rewrite small_to_sint by exact Hsmall. cbn [rbind]. f_equal.
+      now apply small_ceil.
+Qed.
+
+Theorem g_trunc_exact : forall x : fl,
+  g_trunc prec emax Hp Hpe x = Ok (spec_trunc prec emax Hpe x).
+Proof.
+  intros [sx|sx| |s m e H]; unfold spec_trunc.
+  - destruct sx; reflexivity.
+  - destruct sx; reflexivity.
+  - reflexivity.
+  - unfold g_trunc.
+    rewrite fin_is_nan, fin_is_finite, fin_eq0, fin_limit. cbn [negb].
+    destruct (Rle_bool_spec (bpow radix2 (prec - 1)) (Rabs (B2R (B754_finite s m e H)))) as [Hbig|Hsmall].
+    + now rewrite big_nearbyint.
+    + now apply small_trunc_int.
+Qed.
+
 End Fmt.
+
+(** * the concrete formats *)
+Corollary g_floor_exact_b32 : forall x : binary_float 24 128,
+  g_floor 24 128 p32 pe32 x = Ok (spec_floor 24 128 pe32 x).
+Proof. apply g_floor_exact. lia. Qed.
+Corollary g_floor_exact_b64 : forall x : binary_float 53 1024,
+  g_floor 53 1024 p64 pe64 x = Ok (spec_floor 53 1024 pe64 x).
+Proof. apply g_floor_exact. lia. Qed.
+Corollary g_ceil_exact_b32 : forall x : binary_float 24 128,
+  g_ceil 24 128 p32 pe32 x = Ok (spec_ceil 24 128 pe32 x).
+Proof. apply g_ceil_exact. lia. Qed.
+Corollary g_ceil_exact_b64 : forall x : binary_float 53 1024,
+  g_ceil 53 1024 p64 pe64 x = Ok (spec_ceil 53 1024 pe64 x).
+Proof. apply g_ceil_exact. lia. Qed.
+Corollary g_trunc_exact_b32 : forall x : binary_float 24 128,
+  g_trunc 24 128 p32 pe32 x = Ok (spec_trunc 24 128 pe32 x).
+Proof. apply g_trunc_exact. lia. Qed.
+Corollary g_trunc_exact_b64 : forall x : binary_float 53 1024,
+  g_trunc 53 1024 p64 pe64 x = Ok (spec_trunc 53 1024 pe64 x).
+Proof. apply g_trunc_exact. lia. Qed.
+(* x87 extended: prec = 64 is the largest precision the 64-bit conversion supports *)
+Corollary g_floor_exact_b80 : forall x : binary_float 64 16384,
+  g_floor 64 16384 p80 pe80 x = Ok (spec_floor 64 16384 pe80 x).
+Proof. apply g_floor_exact. lia. Qed.
+Corollary g_ceil_exact_b80 : forall x : binary_float 64 16384,
+  g_ceil 64 16384 p80 pe80 x = Ok (spec_ceil 64 16384 pe80 x).
+Proof. apply g_ceil_exact. lia. Qed.
+Corollary g_trunc_exact_b80 : forall x : binary_float 64 16384,
+  g_trunc 64 16384 p80 pe80 x = Ok (spec_trunc 64 16384 pe80 x).
+Proof. apply g_trunc_exact. lia. Qed.
+
+Print Assumptions g_floor_exact_b32.
+Print Assumptions g_floor_exact_b64.
+Print Assumptions g_ceil_exact_b32.
+Print Assumptions g_ceil_exact_b64.
+Print Assumptions g_trunc_exact_b32.
+Print Assumptions g_trunc_exact_b64.
+Print Assumptions g_floor_exact_b80.
+Print Assumptions g_ceil_exact_b80.
+Print Assumptions g_trunc_exact_b80.
